@@ -931,7 +931,15 @@ pub fn gen_objectives(rng: &mut Rng, sp: &SProblem) -> Vec<Value> {
     if sp.jobs.iter().any(|j| j.tasks.iter().any(|t| t.order.is_some())) && rng.chance(1, 2) {
         os.push(json!({"type": "tour-order"}));
     }
-    let mut extras = vec!["balance-max-load", "balance-activities", "balance-distance", "balance-duration", "compact-tour"];
+    let mut extras = vec![
+        "balance-max-load",
+        "balance-activities",
+        "balance-distance",
+        "balance-duration",
+        "compact-tour",
+        "minimize-arrival-time",
+        "fast-service",
+    ];
     rng.shuffle(&mut extras);
     for k in extras.into_iter().take(rng.usize(1, 2)) {
         os.push(match k {
@@ -939,6 +947,15 @@ pub fn gen_objectives(rng: &mut Rng, sp: &SProblem) -> Vec<Value> {
             _ => json!({"type": k}),
         });
     }
-    os.push(json!({"type": "minimize-cost"}));
+    // exactly one cost objective (E1602 / E1606)
+    os.push(json!({"type": *rng.pick(&["minimize-cost", "minimize-cost", "minimize-distance", "minimize-duration"])}));
+    if rng.chance(1, 5) {
+        // maximize instead of minimize the number of tours
+        for o in os.iter_mut() {
+            if o["type"] == "minimize-tours" {
+                *o = json!({"type": "maximize-tours"});
+            }
+        }
+    }
     os
 }
